@@ -316,7 +316,10 @@ class Interp:
                         return [r]
                     ys = state.env.get("<yields>")
                     elts = list(ys.elts) if isinstance(ys, ast.List) else []
-                    elts.append(subst(v.value, state.env))
+                    yv = subst(v.value, state.env)
+                    if isinstance(v, ast.YieldFrom):  # every element of the iterable is yielded
+                        yv = ast.Call(func=ast.Name(id="<elem>", ctx=ast.Load()), args=[yv], keywords=[])
+                    elts.append(yv)
                     state.env["<yields>"] = ast.List(elts=elts, ctx=ast.Load())
                 return [Flow("next", state)]
             r = self._record_effects(st.value, state)
